@@ -411,6 +411,26 @@ fn check_tape_ab(tape: &[u8], gates: &Gates, stats: &mut Stats, counting: bool) 
     let (lay, spelled) = layout(&lexemes, &opts, &mut lt);
     let oscat = lt.ratio(1, 6);
     let text = if oscat { with_oscat(&lay.text, &mut lt, gates) } else { lay.text.clone() };
+    // direct addresses also in lower and mixed case (same length, so every offset stays): the lexer
+    // takes them as address tokens whatever the parser thinks of them later, and a token's text is
+    // the source slice at its span
+    let text = if !oscat && lt.ratio(1, 8) {
+        let mut b = text.into_bytes();
+        for pc in &lay.pieces {
+            if let Some(li) = pc.lexeme {
+                if lexemes[li].class == Class::Address {
+                    for k in pc.start..pc.end {
+                        if lt.flag() {
+                            b[k] = b[k].to_ascii_lowercase();
+                        }
+                    }
+                }
+            }
+        }
+        String::from_utf8(b).unwrap_or_default()
+    } else {
+        text
+    };
     // optional lexical error
     let mut text = text;
     let mut lexerr = false;
